@@ -301,6 +301,7 @@ func H_C02_wire(idx, pat, depth, variant int) {
 	}
 	var b []byte
 	var err error
+	otherTraffic(false) // a refused value was serialised just before
 	pn := verifrt.Catch(func() { b, err = tl.Marshal(v.Interface()) })
 	verifrt.Assert(!pn && err == nil, "marshal-ok")
 	if pn || err != nil {
